@@ -47,7 +47,7 @@ def check_classification(sym, inter, X, Y, what, levels=None):
             sym.check(r == (1 if a == y else 0), f"{what}: reward of action {a!r} for label {y!r} is {r!r}")
 
 @obligation('C14','xy_classification', bounds="<=3 examples given as (X,Y): labels symbolic ints in [0,2] (plain or list-wrapped) or strings / Categoricals; dense or sparse symbolic features; explicit 'c' (ints) or inferred type",
-            functions=FUNCS, params=lambda tier: [dict(n=n, lk=k) for n in (0,1,2,3) for k in ('int','intlist','str','cat')])
+            functions=FUNCS, params=lambda tier: [dict(n=n, lk=k) for n in ((0,1,2,3) if tier == 'quick' else (0,1,2,3,4)) for k in ('int','intlist','str','cat')])
 def xy_classification(sym, n, lk):
     feat = sym.choice('feat', ['dense','sparse','scalar'])
     X = []
@@ -73,7 +73,7 @@ def xy_classification(sym, n, lk):
     check_classification(sym, inter, X, Yv, f"(X,Y) {lk}", levels)
 
 @obligation('C14','xy_regression', bounds="<=3 examples, symbolic real targets k/4, symbolic probe action: reward == -|a-y|; no action list; type explicit 'r' or inferred from numeric labels",
-            functions=FUNCS, params=lambda tier: [dict(n=n) for n in (1,2,3)])
+            functions=FUNCS, params=lambda tier: [dict(n=n) for n in ((1,2,3) if tier == 'quick' else (1,2,3,4))])
 def xy_regression(sym, n):
     X = [[sym.int(f'x{i}',-2,2)] for i in range(n)]
     Y = [sym.real(f'y{i}',-2,2,denom=4) for i in range(n)]
